@@ -19,7 +19,7 @@ ASSUMPTIONS = [
     "harness batch state (active batches) is carried across the history in both variants, so only scheduler residue can differ",
     "generators of unfinished tasks are kept alive until the history ends (GC timing is not part of the property)",
 ]
-MENU = ["ins:raise", "item:err", "item:unset", "flush:raise", "flush:raiseB", "leaf:lzraise", "leaf:lzok", "leaf:ef",
+MENU = ["ins:raise", "item:err", "item:unset", "flush:raise", "flush:raiseB", "flush:fcancel", "flush:fcancelraise", "leaf:lzraise", "leaf:lzok", "leaf:ef",
         "leaf:nf", "wrap:N", "wrap:Xp", "wrap:Xr", "wrap:Xq", "wrap:A", "ins:sync", "wrap:try", "ins:probe", "ins:iv"]
 CATS = ["active-task", "active-task-after", "scheduler-residue", "scheduler-str", "stale-task-ran",
         "canary-differs", "canary-stale-batch-flushed", "hang", "worker-died"]
